@@ -398,8 +398,8 @@ func (p *parser) parsePostfix() Expr {
 func typeNameOf(e Expr) string {
 	switch x := e.(type) {
 	case *EIdent:
-		if len(x.name) > 0 && unicode.IsUpper(rune(x.name[0])) {
-			return x.name
+		if len(x.name) > 0 {
+			return x.name // there are no blocks in spec expressions, so ident{...} is always a literal
 		}
 	case *ESel:
 		if id, ok := x.x.(*EIdent); ok {
@@ -647,6 +647,10 @@ func (cs *ContractSet) parseFile(pkg, path, src string) error {
 				return errf("use needs lemma(args)")
 			}
 			cur.script = append(cur.script, scriptStmt{kind: "use", name: id.name, args: call.args, text: rest})
+		case "focus":
+			cur.script = append(cur.script, scriptStmt{kind: "focus", text: rest})
+		case "unfocus":
+			cur.script = append(cur.script, scriptStmt{kind: "unfocus"})
 		case "generalize":
 			for _, n := range strings.Fields(strings.ReplaceAll(rest, ",", " ")) {
 				cur.script = append(cur.script, scriptStmt{kind: "generalize", name: n, text: rest})
@@ -760,6 +764,14 @@ func (e *Env) lookup(n string) (Value, bool) {
 	for c := e; c != nil; c = c.parent {
 		if v, ok := c.vars[n]; ok {
 			return v, true
+		}
+	}
+	// Go variables of an attached frame also shadow package names
+	for c := e; c != nil; c = c.parent {
+		if c.frame != nil {
+			if ee, ok := c.frame.env[n]; ok {
+				return ee.v, true
+			}
 		}
 	}
 	return nil, false
@@ -1070,6 +1082,10 @@ func (x *Exec) selectField(st *State, v Value, name string) Value {
 			return t.len
 		}
 	}
+	if o, ok := v.(*Opaque); ok && o.id != nil {
+		x.symArrCtr++
+		return &Opaque{tag: o.tag, id: freshVar(fmt.Sprintf("unspec%d", x.symArrCtr), SInt)}
+	}
 	fail("no field %s in %s", name, valueString(v))
 	return nil
 }
@@ -1106,6 +1122,11 @@ func (x *Exec) indexValue(st *State, v Value, i *Term) Value {
 		return x.selectSym(arr.el, off, l, i)
 	case *Ptr:
 		return x.indexValue(st, x.load(st, t), i)
+	}
+	if o, ok := v.(*Opaque); ok && o.id != nil {
+		// component of an unspecified value (e.g. argument of an event that did not happen on this path)
+		x.symArrCtr++
+		return &Opaque{tag: o.tag, id: freshVar(fmt.Sprintf("unspec%d", x.symArrCtr), SInt)}
 	}
 	fail("cannot index %s", valueString(v))
 	return nil
@@ -1177,7 +1198,11 @@ func (x *Exec) evalBin(st *State, env *Env, n *EBin) Value {
 func (x *Exec) evalCall(st *State, env *Env, n *ECall) Value {
 	// builtin spec functions and macros
 	if id, ok := n.fun.(*EIdent); ok {
-		if _, bound := env.lookup(id.name); !bound {
+		bv, bound := env.lookup(id.name)
+		if _, isFn := bv.(*Func); bound && !isFn {
+			bound = false // a Go variable that happens to share the name of a spec function is not callable
+		}
+		if !bound {
 			if v, ok := x.specBuiltin(st, env, id.name, n.args); ok {
 				return v
 			}
@@ -1614,6 +1639,29 @@ func (x *Exec) specBuiltin(st *State, env *Env, name string, args []Expr) (Value
 			return has, true
 		}
 		return val, true
+	case "pow2":
+		x.curState = st
+		return x.pow2(num(0)), true
+	case "nevmatch":
+		// number of events of the given kind (since the last cut) whose argument equals the value
+		s0, ok := x.eval(st, env, args[0]).(*Str)
+		if !ok || s0.sym != nil {
+			fail("nevmatch needs a literal event name")
+		}
+		ai, ok2 := concreteInt(num(1))
+		if !ok2 {
+			fail("nevmatch needs a concrete argument index")
+		}
+		want := x.eval(st, env, args[2])
+		sum := mkInt(0)
+		for _, ev := range st.log[st.logMark:] {
+			if ev.kind == "ext:"+s0.s || ev.kind == s0.s || strings.HasSuffix(ev.kind, s0.s) {
+				if ai < len(ev.args) {
+					sum = mkAdd(sum, mkIte(x.valuesEqual(ev.args[ai], want), mkInt(1), mkInt(0)))
+				}
+			}
+		}
+		return sum, true
 	case "merged":
 		// identity; forces single-valued (path-merged) evaluation of a call in a let
 		return x.eval(st, env, args[0]), true
